@@ -278,9 +278,10 @@ def run_single(key):
     return ok(outcome=f'{fam}:{kind}:{salk}')
 
 
-BOUND_FAMILIES = ('watson', 'cwmm', 'vmf', 'vmfmm', 'bingham', 'cbmm')
+BOUND_FAMILIES = ('watson', 'cwmm', 'vmf', 'vmfmm', 'vmfcacgmm', 'bingham', 'cbmm')
 BOUNDS = {'watson': (500.0, 50.0, 5.0), 'cwmm': (500.0, 50.0, 5.0),
           'vmf': ((1e-10, 500.0), (2.0, 5.0), (0.5, 50.0)), 'vmfmm': ((1e-10, 500.0), (2.0, 5.0), (0.5, 50.0)),
+          'vmfcacgmm': ((1e-10, 500.0), (2.0, 5.0), (0.5, 50.0)),
           'bingham': (500.0, 50.0, 5.0), 'cbmm': (500.0, 50.0, 5.0)}
 
 
@@ -290,7 +291,7 @@ def run_bounds(key):
     where the upper bound binds, and on nearly uniform data, where the lower one does."""
     d = impl.dist()
     fam, D, seq, seed = key['family'], key['D'], key['bounds'], key['seed']
-    cplx = fam not in ('vmf', 'vmfmm')
+    cplx = fam not in ('vmf', 'vmfmm', 'vmfcacgmm')
     N = 4 * D + 4
     r = A.rng(seed, 'c09bounds', fam, D)
     proto = A.unit_vectors(seed, 2, D, 'c09bounds', fam, complex_=cplx, max_cos=0.3)
@@ -317,6 +318,11 @@ def run_bounds(key):
                 elif fam == 'vmfmm':
                     k = d.VMFMMTrainer().fit(y, initialization=init, iterations=2, min_concentration=b[0],
                                              max_concentration=b[1]).vmf.concentration
+                    lo, hi = b
+                elif fam == 'vmfcacgmm':
+                    obs = A.cnormal(A.rng(seed, 'c09bounds-obs', D), (1, N, 3))
+                    k = d.VMFCACGMMTrainer().fit(obs, y[None], initialization=init[None], iterations=2,
+                                                 min_concentration=b[0], max_concentration=b[1]).vmf.concentration
                     lo, hi = b
                 elif fam == 'bingham':
                     k = -np.asarray(d.ComplexBinghamTrainer(max_concentration=b).fit(y[lab == 0])
